@@ -100,6 +100,12 @@ func gen14(seed int64, tier string) []drv.Case {
 			st = append(st, step{Op: "upload", Ctx: c, Repo: rp, Files: files()})
 			st = append(st, step{Op: "build", Chunk: firstChunk, Fast: r.Intn(2) == 0, Resume: true})
 		}
+		if i%4 == 1 {
+			// a bundle uploaded after the index was built, re-using contents of the pool (possibly blobs that no bundle
+			// references any more): delete-unused must keep what it needs ("keeping all others")
+			c, rp := where()
+			st = append(st, step{Op: "upload", Ctx: c, Repo: rp, Files: files()})
+		}
 		if r.Intn(2) == 0 {
 			st = append(st, step{Op: "dry-run"})
 		}
